@@ -77,6 +77,7 @@ func init() {
 		"strings.Split":      strSplit,
 		"strings.SplitN":     strSplitN,
 		"strings.ToUpper":    strToUpper,
+		"strings.ToLower":    strToLower,
 		"strings.Title":      strTitle,
 		"strings.TrimSpace":  strTrimSpace,
 		"strings.TrimPrefix": strTrimPrefix,
@@ -1042,6 +1043,18 @@ func strToUpper(c *CallCtx) (Value, bool) {
 	return c.e.mapChars(c.st, s, func(ch *Term, _ int) *Term {
 		lower := ts.And(ts.BvCmp(OBvUle, ts.Int('a'), ch), ts.BvCmp(OBvUle, ch, ts.Int('z')))
 		return ts.Ite(lower, ts.BvBin(OBvSub, ch, ts.Int(32)), ch)
+	}), true
+}
+
+func strToLower(c *CallCtx) (Value, bool) {
+	ts := c.e.ts
+	s := c.args[0].(*Term)
+	if s.IsConst() {
+		return ts.StrC(strings.ToLower(s.Str)), true
+	}
+	return c.e.mapChars(c.st, s, func(ch *Term, _ int) *Term {
+		upper := ts.And(ts.BvCmp(OBvUle, ts.Int('A'), ch), ts.BvCmp(OBvUle, ch, ts.Int('Z')))
+		return ts.Ite(upper, ts.BvBin(OBvAdd, ch, ts.Int(32)), ch)
 	}), true
 }
 
